@@ -214,9 +214,8 @@ pub fn run_forge<K: SimKey>(case: &Case, fseed: u64, budget: u32) -> Outcome {
         }
         out.fingerprints.push(mix(entries.len() as u64, version));
         // ---- (ii) mutations of this valid encoding -------------------------------------------
-        if extreme {
-            continue;
-        }
+        // (the extreme-size snapshot is mutated as well: since the repair of F6 a size sum beyond
+        // 2^64 saturates while loading instead of overflowing)
         let mut muts: Vec<(String, Vec<u8>)> = Vec::new();
         let step = (len / 40).max(1);
         for cut in (0..len).step_by(step) {
